@@ -36,6 +36,11 @@ class FailingCursor:
         self._cur.execute(sql, params)
         return self
 
+    def executemany(self, sql, seq):
+        for params in seq:
+            self.execute(sql, params)
+        return self
+
     def fetchone(self):
         return self._cur.fetchone()
 
@@ -73,8 +78,17 @@ class FailingConn:
         self._tick()
         return self._conn.execute(sql, params)
 
+    def executemany(self, sql, seq):
+        return self.cursor().executemany(sql, seq)
+
     def commit(self):
         self._conn.commit()
+
+    def rollback(self):
+        self._conn.rollback()
+
+    def close(self):
+        self._conn.close()
 
     def __enter__(self):
         self._conn.__enter__()
